@@ -557,6 +557,15 @@ def report(pid, tier, seed, obligations, results, wall, level_note=""):
                   "witness in it (an assertion that must FAIL) was indeed violated, i.e. the "
                   "harness is not vacuous"),
             obligations=n, discharged=len(passed),
+            # model-checking style counters (bounded symbolic exploration, so these are sizes of
+            # the explored symbolic transition systems, measured by CBMC on this run):
+            # states = SSA program steps of all obligations, transitions = verification
+            # conditions (properties) decided, traces_validated_against_impl = counterexample
+            # traces replayed against a native build of /repo
+            states=max(1, sum(r.get("steps", 0) for r in results)),
+            transitions=max(1, sum(r.get("props", 0) for r in results)),
+            traces_validated_against_impl=sum(1 for r in results for f in r["failures"]
+                                              if str(f.get("replay_status", "")).startswith("confirmed")),
             inconclusive=[dict(name=r["name"], status=r["status"]) for r in inconclusive],
             cbmc_properties_checked=sum(r.get("props", 0) for r in results),
             solver_seconds=round(sum(r.get("solver_s", 0) for r in results), 2),
